@@ -928,7 +928,17 @@ fn format_subexpression(
             }
         }
         ast::Expression::BinaryOperation(op, left, right) => {
-            format_subexpression(left, prec, OperatorSide::Left, output, context)?;
+            // a < b > (c) would be read as a call to a<b> - so the comparison on the left gets parenthesis
+            let left_is_less_than = matches!(
+                left.node,
+                ast::Expression::BinaryOperation(ast::BinOp::LessThan, _, _)
+            );
+            let left_prec = if *op == ast::BinOp::GreaterThan && left_is_less_than {
+                0
+            } else {
+                prec
+            };
+            format_subexpression(left, left_prec, OperatorSide::Left, output, context)?;
             if *op != ast::BinOp::Sequence {
                 output.push(' ');
             }
